@@ -6,6 +6,7 @@ from . import registry as R
 from .state import SV, State, VCError, Display, PyFunc, fresh, fresh_sort
 from .expr import I, S, is_pystr
 
+from .stmt import _mutable_container
 MAX_INLINE_DEPTH = 6
 
 class CallMixin:
@@ -163,7 +164,7 @@ class CallMixin:
             if recv.box is not None:
                 self.hwrite(st, recv.box[0], "val", recv.box[1], newval.t); yield st; return
             if recv_node is None: raise VCError("mutation of a non-lvalue container")
-            yield from self.assign(recv_node, newval, st, quiet=True)
+            yield from self.assign(recv_node, newval, st, quiet=True, mutation=True)
         if isinstance(ty, T.List):
             n = T.list_len(ty, recv.t); arr = T.list_arr(ty, recv.t)
             if name == "append":
@@ -338,6 +339,11 @@ class CallMixin:
         if depth >= MAX_INLINE_DEPTH: raise VCError("inline depth exceeded at %s" % dq)
         callee = st.fork()
         callee.env = dict(kwargs)
+        tracked = {}
+        for n_, v_ in kwargs.items():
+            if isinstance(v_, SV) and _mutable_container(v_.ty) and v_.box is None and not self.spec:
+                # alias guard: the callee's parameter and the caller's expression denote the same object - an in-place update is written back
+                callee.env[n_] = SV(v_.ty, v_.t, cls=v_.cls, lv=v_.lv, mark=("param", n_, False)); tracked[n_] = v_
         for g in ("__trace__", "__bn__", "__yielded_outer__"):
             if g in st.env: callee.env[g] = st.env[g]
         if self_sv is not None: callee.env["self"] = self_sv
@@ -354,11 +360,22 @@ class CallMixin:
             back = s2.fork(); back.env = dict(st.env); back.ctx = st.ctx; back.exc_sink = st.exc_sink
             for g in ("__trace__", "__bn__"):
                 if g in s2.env: back.env[g] = s2.env[g]
+            backs = [back]
+            for n_, v0 in tracked.items():
+                v1 = s2.env.get(n_)
+                if v1 is not None and v1.mark == ("param", n_, True):
+                    if v0.lv is None:
+                        if v0.mark is not None: raise VCError("%s updates its parameter %s in place; the argument is not an lvalue at the call site" % (dq, n_))
+                        continue        # a temporary nobody else can observe
+                    nb = []
+                    for b_ in backs: nb.extend(self.assign(v0.lv, SV(v1.ty, v1.t, cls=v1.cls), b_, quiet=True, mutation=True))
+                    backs = nb
             if kind in ("fall", "return"):
-                yield back, (val if val is not None else SV(T.NoneT, z3.BoolVal(True)))
+                for back in backs: yield back, (val if val is not None else SV(T.NoneT, z3.BoolVal(True)))
             elif kind == "raise":
-                back.exc_sink = st.exc_sink
-                if st.exc_sink is not None: st.exc_sink.append((back, val))
+                for back in backs:
+                    back.exc_sink = st.exc_sink
+                    if st.exc_sink is not None: st.exc_sink.append((back, val))
             else: raise VCError("break/continue escaped function %s" % dq)
 
     def construct(self, st, cq, args, kwargs, node):
